@@ -12,6 +12,8 @@ CONSTANTS
   RetryLimit = 5
   AtomicRemove = TRUE
   Contents = {0,1}
+  FinLag = 0
+  NoIdle = FALSE
   SimDepth = 0
 INIT Init
 NEXT Next
